@@ -233,6 +233,13 @@ def run(tier, replay):
             raise vlib.Inconclusive("set function harness failed\n" + out[-2000:])
         for b in json.load(open(fo))["bad"] or []:
             V.violation("set clause with functions: the groups differ from the central evaluation", b)
+        # group by a tuple of fields, some of them missing in some lines
+        go_ = os.path.join(wd, "tuple.json")
+        rc, out = vlib.go_test(wd, "./internal/mapr/server", OV, "TestC05GroupByTuple", env={"VERIF_OUT": go_}, timeout=300)
+        if rc != 0 or not os.path.exists(go_):
+            raise vlib.Inconclusive("group-by-tuple harness failed\n" + out[-2000:])
+        for b in json.load(open(go_))["bad"] or []:
+            V.violation("group by several fields: the rows differ from the central evaluation (a missing field is an empty position of the key)", b)
         # magnitudes: a partial count/sum beyond 10^6 inside one serialisation interval
         mo = os.path.join(wd, "mag.json")
         nbig = 1000005 if tier == "quick" else 2500003
